@@ -87,10 +87,7 @@ impl Clone for DataCost { #[verifier::external_body] fn clone(&self) -> (r: Self
 impl Clone for TransactionBuilder { #[verifier::external_body] fn clone(&self) -> (r: Self) ensures r == *self { unimplemented!() } }
 impl Clone for TransactionBuilderConfig { #[verifier::external_body] fn clone(&self) -> (r: Self) ensures r == *self { unimplemented!() } }
 impl Clone for TxBuilderFee { #[verifier::external_body] fn clone(&self) -> (r: Self) ensures r == *self { unimplemented!() } }
-pub assume_specification<T, E> [Option::<Result<T, E>>::transpose] (o: Option<Result<T, E>>) -> (r: Result<Option<T>, E>)
-    ensures o is None ==> r == Ok::<Option<T>, E>(None),
-            o is Some && o->Some_0 is Ok ==> r == Ok::<Option<T>, E>(Some(o->Some_0->Ok_0)),
-            o is Some && o->Some_0 is Err ==> r is Err;
+
 
 // ===== sizes, min-ADA, fees (callees of the guards) ===========================================================
 pub uninterp spec fn value_size(v: Value) -> nat;                      // serialized size of a Value
@@ -118,7 +115,14 @@ pub mod fees {
 pub uninterp spec fn ref_fee(size: nat, p: UnitInterval) -> nat;                    // tiered reference-script fee           (unit fees)
 #[verifier::external_body] pub fn min_ref_script_fee(total_ref_scripts_size: usize, p: &UnitInterval) -> (r: Result<Coin, JsError>)
     ensures r is Ok ==> r->Ok_0.0 == ref_fee(total_ref_scripts_size as nat, *p) { unimplemented!() }
-impl TransactionWitnessSet { }
+impl TransactionBody {
+    pub uninterp spec fn bytes_of(&self) -> Seq<u8>;
+    #[verifier::external_body] pub fn to_bytes(&self) -> (r: Vec<u8>) ensures r@ == self.bytes_of() { unimplemented!() }
+}
+impl TransactionOutput {
+    pub uninterp spec fn bytes_of(&self) -> Seq<u8>;
+    #[verifier::external_body] pub fn to_bytes(&self) -> (r: Vec<u8>) ensures r@ == self.bytes_of() { unimplemented!() }
+}
 
 // ===== TransactionBuilder: parts left abstract ==================================================================
 impl TransactionBuilder {
